@@ -144,6 +144,12 @@ pub(crate) fn generate_entrypoint_artifacts_with_client_scalar_selectable_traver
         get_used_variable_definitions(inner_merged_selection_map.reference(), variable_definitions);
 
     let merged_selection_map = WrappedMergedSelectionMap::new(inner_merged_selection_map);
+    #[cfg(feature = "isographlabs_isograph_verif")]
+    crate::verif::rec_query(
+        query_name,
+        merged_selection_map.clone().inner().reference(),
+        reachable_variables.iter().copied(),
+    );
     let query_text = TCompilationProfile::NetworkProtocol::generate_query_text(
         db,
         root_entity,
@@ -208,10 +214,20 @@ pub(crate) fn generate_entrypoint_artifacts_with_client_scalar_selectable_traver
     let refetch_query_artifact_import =
         generate_refetch_query_artifact_import(&refetch_paths_with_variables, file_extensions);
 
+    #[cfg(feature = "isographlabs_isograph_verif")]
+    crate::verif::rec_norm(inner_merged_selection_map.reference());
     let normalization_ast_text =
         generate_normalization_ast_text(inner_merged_selection_map.values(), 1);
 
     let merged_selection_map = WrappedMergedSelectionMap::new(inner_merged_selection_map.clone());
+    #[cfg(feature = "isographlabs_isograph_verif")]
+    crate::verif::rec_operation_text(
+        query_name,
+        merged_selection_map.clone().inner().reference(),
+        reachable_variables.iter().copied(),
+        root_entity,
+        persisted_documents,
+    );
     let operation_text = generate_operation_text(
         db,
         query_name,
@@ -254,8 +270,16 @@ pub(crate) fn generate_entrypoint_artifacts_with_client_scalar_selectable_traver
         },
     );
 
+    #[cfg(feature = "isographlabs_isograph_verif")]
+    crate::verif::rec_raw(
+        db,
+        root_entity,
+        merged_selection_map.clone().inner().reference(),
+    );
     let raw_response_type = generate_raw_response_type(db, root_entity, merged_selection_map, 0);
 
+    #[cfg(feature = "isographlabs_isograph_verif")]
+    crate::verif::rec_flush("E");
     let mut path_and_contents = Vec::with_capacity(refetch_paths_with_variables.len() + 3);
     path_and_contents.push(ArtifactPathAndContent {
         file_content: format!("export default '{query_text}';").into(),
@@ -363,6 +387,25 @@ fn generate_refetch_query_artifact_import(
     )],
     file_extensions: GenerateFileExtensionsOption,
 ) -> RefetchQueryArtifactImport {
+    #[cfg(feature = "isographlabs_isograph_verif")]
+    crate::verif::rec_refetch_imports(
+        root_refetched_paths
+            .iter()
+            .map(|(root_refetched_path, _, variable_names)| {
+                (
+                    variable_names.iter().copied().collect(),
+                    get_used_variables_for_refetch_query_import(
+                        &root_refetched_path
+                            .path_to_refetch_field_info
+                            .imperatively_loaded_field_variant
+                            .subfields_or_inline_fragments,
+                    )
+                    .into_iter()
+                    .collect(),
+                )
+            })
+            .collect(),
+    );
     // TODO name the refetch queries with the path, or something, instead of
     // with indexes.
     let mut output = String::new();
@@ -415,6 +458,15 @@ fn entrypoint_file_content<TCompilationProfile: CompilationProfile>(
     directive_set: &EntrypointDirectiveSet,
     field_directive_set: ClientScalarSelectableDirectiveSet,
 ) -> String {
+    #[cfg(feature = "isographlabs_isograph_verif")]
+    crate::verif::rec_entrypoint_meta(
+        parent_type.name.item,
+        field_name,
+        file_extensions.ts(),
+        concrete_type,
+        directive_set,
+        &field_directive_set,
+    );
     let ts_file_extension = file_extensions.ts();
     let entrypoint_params_typename = format!("{}__{}__param", parent_type.name, query_name);
     let entrypoint_output_type_name = format!("{}__{}__output_type", parent_type.name, query_name);
